@@ -19,7 +19,7 @@ def run(tier, only=None):
     jobs = mirror_as.jobs(tier)
     for r in check_exc(pmap(mirror_as.run_job, jobs)):
         R.replayed += 1
-        R.case(r["key"], True, sample=r if r["k"] % 7 == 0 else None, section=r["key"][0])
+        R.case(r["key"], not r.get("inadmissible", False), sample=r if r["k"] % 7 == 0 else None, section=r["key"][0])
         for sig, payload in r["bad"]:
             R.violation(sig, {"job": r["job"], "detail": payload})
     R.assume(
